@@ -25,9 +25,13 @@ func (o *OffsetExpr) Eval(ctx context.Context, local Scope) (_ Value, err error)
 	if err != nil {
 		return nil, WrapContextErr(err, o, local)
 	}
-	_, isNumber := offset.(Number)
+	n, isNumber := offset.(Number)
 	if !isNumber {
 		return nil, WrapContextErr(errors.Errorf("offset must be a number, not %s", ValueTypeAsString(offset)), o, local)
+	}
+	shift, isInt := n.Int()
+	if !isInt {
+		return nil, WrapContextErr(errors.Errorf("offset must be an integer, not %v", n), o, local)
 	}
 
 	array, err := o.array.Eval(ctx, local)
@@ -36,11 +40,11 @@ func (o *OffsetExpr) Eval(ctx context.Context, local Scope) (_ Value, err error)
 	}
 	switch a := array.(type) {
 	case Array:
-		return NewOffsetArray(a.offset+int(offset.(Number)), a.values...), nil
+		return NewOffsetArray(a.offset+shift, a.values...), nil
 	case Bytes:
-		return NewOffsetBytes(a.Bytes(), a.offset+int(offset.(Number))), nil
+		return NewOffsetBytes(a.Bytes(), a.offset+shift), nil
 	case String:
-		return NewOffsetString(a.s, a.offset+int(offset.(Number))), nil
+		return NewOffsetString(a.s, a.offset+shift), nil
 	case EmptySet:
 		return None, nil
 	}
